@@ -23,15 +23,20 @@ REGISTRATION = {
             "under the guard that no shift fails, with a Lean-checked counterexample otherwise. The model is "
             "compared event by event with the REAL NewSequence/LoadCacheSlot/processBatch/Causal (fake eager "
             "backend, scripted model whose logits are a function of exactly the exposed key rows), and every "
-            "clause is also evaluated directly on the real cache (L2).",
+            "clause is also evaluated directly on the real cache (L2). Records of different slots never share "
+            "storage (load/forward/shift leave every other slot unchanged: theorems; record-aliasing monitors on "
+            "the real slots of both runners).",
     "design_ref": "DESIGN.md §5 C07, §6 F3/F22",
     "note": COMMON_NOTE + "Modelled, not verified: cell placement in kvcache.Causal (findStartLoc is modelled, "
             "the layout after a defrag is taken from the real cache; C06 owns it; cell ranges are assumed to cover "
             "the sequence), multimodal inputs / "
             "SameBatch (text inputs only), which FindStop variant the tree has (probed on the real function; C14 owns it), the HTTP layer (the slot-loading block of completion is replayed by "
-            "the driver), sampling beyond greedy. runner/llamarunner/cache.go: only its pure functions "
-            "(findLongestCacheSlot, findBestCacheSlot, countCommonPrefix, ShiftDiscard) are tied; its KV cache "
-            "is llama.cpp's C++ (modelled, not verified). Panics are outside the property (F22: "
+            "the driver), sampling beyond greedy. runner/llamarunner/cache.go: findLongestCacheSlot, "
+            "findBestCacheSlot (incl. the fork), countCommonPrefix, ShiftDiscard and NewInputCache run for real on "
+            "real slots over request histories (records compared exactly with the model after every event; "
+            "record-aliasing / coherence / prefix monitors); LoadCacheSlot and ShiftCacheSlot call llama.cpp "
+            "unconditionally, so their remaining statements are replayed verbatim by the driver (sha1 of their "
+            "source recorded in the evidence) and llama.cpp's KV cache is a shadow (modelled, not verified). Panics are outside the property (F22: "
             "findBestCacheSlot dereferences nil when no free slot is older than now; mirrored by the model as "
             "an explicit outcome, the harness advances fake time).",
 }
@@ -48,6 +53,11 @@ THEOREMS = [
     "OllamaVerif.C07.nextTok_perm",
     "OllamaVerif.C07.fresh_equiv_tokens",
     "OllamaVerif.C07.coherent_init",
+    "OllamaVerif.C07.load_other_records",
+    "OllamaVerif.C07.forward_other_records",
+    "OllamaVerif.C07.shift_other_records",
+    "OllamaVerif.C07.llLoad_other_records",
+    "OllamaVerif.C07.llLoad_prefix_sound",
     "OllamaVerif.C07.canResume_sound",
     "OllamaVerif.C07.load_window_present",
     "OllamaVerif.C07.canResume_not_monotone",
@@ -92,19 +102,36 @@ def reset_end(ctx):
     return val
 
 
+def ll_replayed_sha():
+    """sha1 of the llamarunner functions whose statements the driver replays (they call llama.cpp
+    unconditionally and cannot run without a model): recorded in the evidence so that drift is visible."""
+    import hashlib
+    src = open(os.path.join(core.REPO, "runner/llamarunner/cache.go")).read()
+    parts = []
+    for name in ("LoadCacheSlot", "ShiftCacheSlot"):
+        m = re.search(r"func \(c \*InputCache\) %s\(.*?\n}\n" % name, src, flags=re.S)
+        parts.append(m.group(0) if m else "")
+    return hashlib.sha1("".join(parts).encode()).hexdigest()
+
+
 def run(ctx):
     rend = reset_end(ctx)
     ctx.lean_check(MODULES, THEOREMS)
-    env = {"VERIF_N": ctx.scale(1200, 30000), "VERIF_C07_RESET_END": rend,
-           "VERIF_C07_CORPUS": os.path.join(core.ROOT, "corpus", "C07", "histories.txt")}
+    corpus = os.path.join(core.ROOT, "corpus", "C07", "histories.txt")
+    replay_file, replay_ll = None, False
     if ctx.replay:
-        env["VERIF_REPLAY"] = ctx.replay_line_file()
-    rc, out, outdir = ctx.go_test("./runner/ollamarunner/", OVERLAY, "^TestVerifC07$", env=env, timeout=1500)
-    if rc != 0:
-        ctx.violation("driver-failed", "", out[-1500:], no_input=True)
-    ctx.read_stats(outdir)
-    ctx.l1(outdir)
-    ctx.classify(ctx.l2(outdir))
+        replay_file = ctx.replay_line_file()
+        replay_ll = open(replay_file).read().lstrip().startswith("llhist")
+    if not replay_ll:
+        env = {"VERIF_N": ctx.scale(1200, 30000), "VERIF_C07_RESET_END": rend, "VERIF_C07_CORPUS": corpus}
+        if replay_file:
+            env["VERIF_REPLAY"] = replay_file
+        rc, out, outdir = ctx.go_test("./runner/ollamarunner/", OVERLAY, "^TestVerifC07$", env=env, timeout=1500)
+        if rc != 0:
+            ctx.violation("driver-failed", "", out[-1500:], no_input=True)
+        ctx.read_stats(outdir)
+        ctx.l1(outdir)
+        ctx.classify(ctx.l2(outdir))
     if not ctx.replay:
         rc, out, outdir = ctx.go_test("./runner/llamarunner/", OVERLAY_LL, "^TestVerifC07LL$",
                                       env={"VERIF_N": ctx.scale(4000, 100000)}, timeout=1500)
@@ -113,6 +140,18 @@ def run(ctx):
         ctx.read_stats(outdir)
         ctx.l1(outdir, label="L1-llamarunner")
         ctx.classify(ctx.l2(outdir))
+    if not ctx.replay or replay_ll:
+        # llamarunner slot records over request histories (real slot selection / fork, shadow KV)
+        env = {"VERIF_N": ctx.scale(1500, 30000), "VERIF_C07_CORPUS": corpus}
+        if replay_ll:
+            env["VERIF_REPLAY"] = replay_file
+        rc, out, outdir = ctx.go_test("./runner/llamarunner/", OVERLAY_LL, "^TestVerifC07LLHist$", env=env, timeout=1500)
+        if rc != 0:
+            ctx.violation("driver-failed", "", out[-1500:], no_input=True)
+        ctx.read_stats(outdir)
+        ctx.l1(outdir, label="L1-llamarunner-histories")
+        ctx.classify(ctx.l2(outdir))
+    ctx.coverage["llamarunner_replayed_source_sha1"] = ll_replayed_sha()
     ctx.assumptions += [
         "cell placement after a defrag is taken from the real kvcache.Causal (C06 owns placement and the data "
         "movement of defrag); the theorems hold for every placement",
@@ -120,7 +159,8 @@ def run(ctx):
         "Coherent invariant theorems are for plain causal caches (any CanResume answer); for SWA the proved part is "
         "canResume_sound + load_window_present (leave-one/CanResume ordering)",
         "text inputs only (SameBatch = 0, no multimodal hashes); greedy sampling",
-        "llamarunner: pure functions only; llama.cpp's KV cache is modelled, not verified",
+        "llamarunner: slot selection/fork/ShiftDiscard real over histories; LoadCacheSlot/ShiftCacheSlot statements "
+        "replayed by the driver; llama.cpp's KV cache is a shadow (modelled, not verified)",
     ]
     if ctx.thorough:
         ctx.leanchecker(MODULES)
